@@ -10,7 +10,7 @@ use crate::monitor::{conclude, conv::drop_value_iter, guard, hex, parallel, show
 use crate::oracle::rfc8259::{Opts, Reader};
 use crate::real;
 use crate::rng::Rng;
-use json_syntax::{Parse, Value};
+use json_syntax::{Parse, Print, Value};
 use serde_json::json;
 use std::cell::Cell;
 use std::time::{Duration, Instant};
@@ -115,8 +115,38 @@ pub fn probe_parse(s: &str, o: Opts) -> Result<ProbeResult, String> {
 	}
 }
 
+/// The same text from a source that is itself a user of the parser: every few
+/// characters its `next()` parses a small document (with a key, a string and
+/// a number) on the same thread before handing out the character. The outcome
+/// must be the same as with a plain source.
+fn reentrant_parse(s: &str, o: Opts) -> Result<bool, String> {
+	let mut n = 0usize;
+	let it = s.chars().map(move |c| {
+		n += 1;
+		if n % 3 == 1 {
+			let inner = Value::parse_str("{\"k\":[\"v\\u00e9\",1.5e3,null]}");
+			assert!(inner.is_ok(), "inner parse failed");
+			let (v, cm) = inner.unwrap();
+			let _ = (v.traverse().count(), cm.len(), v.compact_print().to_string());
+		}
+		Ok::<char, std::convert::Infallible>(c)
+	});
+	guard(|| Value::parse_utf8_with(it, real::options(o)).map(|(v, _)| drop_value_iter(v)).is_ok())
+}
+
 fn check_probe(rep: &mut Report, fam: &str, s: &str, o: Opts, want_ok: Option<bool>) {
 	let nchars = s.chars().count();
+	if s.len() <= 256 && (rep.evaluations % 8 == 0 || s.len() <= 6) {
+		rep.count("parses_from_a_reentrant_source", 1);
+		match (reentrant_parse(s, o), guard(|| Value::parse_str_with(s, real::options(o)).map(|(v, _)| drop_value_iter(v)).is_ok())) {
+			(Ok(a), Ok(b)) if a == b => (),
+			(a, b) => rep.violation(
+				"C03:reentrant-source",
+				format!("[{}] `{}` from a source that itself parses JSON between characters: {:?}; from a plain string: {:?}", fam, show(s.as_bytes()), a, b),
+				json!({"sub": "bytes", "input_hex": hex(s.as_bytes()), "options": [o.truncated, o.invalid]}),
+			),
+		}
+	}
 	match probe_parse(s, o) {
 		Err(p) => rep.violation(
 			"C03:panic",
